@@ -11,7 +11,7 @@ import (
 
 func init() {
 	register(&Property{
-		ID: "C04",
+		ID:          "C04",
 		Explanation: "Decided for all paths of the follower handler and the leader's request builder: Success=true is stored only when PrevLogEntry == 0 or PrevLogTerm equals the term of our entry at PrevLogEntry, that term being either the cached tail's (only when PrevLogEntry equals the cached last index) or read with GetLog(PrevLogEntry) (error → reject); in the entries loop an entry is skipped only when the stored entry at its index was read and has the same term, the log is truncated exactly from the first conflicting entry and what is appended is the suffix of the request from that same position (or from the first entry beyond our last index), StoreLogs gets exactly that suffix and the last-log marker its last element; the leader fills PrevLogEntry/PrevLogTerm from one source pair per case and sends a gap-free run of entries starting at nextIndex; the leader appends at last+1 in its own term.",
 		NotDecided:  "pairwise equality of two servers' logs at run time (the induction over message histories is not performed); what LogStore implementations return.",
 		RuleText:    "C04.R1 guard + phi-edge provenance of the compared term; R2 per-iteration automaton on the entries loop and slice provenance; R3 source pairs in setPreviousLog; R4 loop shape of setNewLogs; R5 = C03.R7; R6 S-STALE for appendEntries.",
